@@ -6,10 +6,12 @@ use serde_json::{json, Value};
 
 use crate::engine::{self, Ctx, Part};
 
+pub mod c01;
 pub mod c03;
 pub mod c04;
 pub mod c05;
 pub mod c07;
+pub mod c08;
 pub mod c15;
 pub mod c16;
 pub mod c19;
@@ -25,10 +27,12 @@ pub struct Check {
 
 fn build(ctx: &Ctx) -> Option<Check> {
     Some(match ctx.property.as_str() {
+        "C01" => c01::check(ctx),
         "C03" => c03::check(ctx),
         "C04" => c04::check(ctx),
         "C05" => c05::check(ctx),
         "C07" => c07::check(ctx),
+        "C08" => c08::check(ctx),
         "C15" => c15::check(ctx),
         "C16" => c16::check(ctx),
         "C19" => c19::check(ctx),
